@@ -30,7 +30,7 @@ RULE = ('(A) cross product system{absent,1.0,2.0} x constraint{none,>=1.5,<1.5,>
         'x pre-step{none, subproject(), parent override 1.0/2.0} x required{true,false,auto,disabled(+enabled/default samples)} x '
         '(allow_fallback,fallback){unset/true/false x none, explicit with/without variable}, pruned of undefined combinations; one '
         '`meson setup --backend=none` per cell (quick: seeded sample; thorough: all). Sequences: all patterns XX, XXX, XY, XYX, XSX, XSY, '
-        'SXY, OXY over 6 lookup variants x a configuration grid (quick: core grid; thorough: extended grid). non-trivial (A) = at least two '
+        'SXY, OXY over 6 lookup variants x a configuration grid (quick: core grid; thorough: extended grid). Multi-name lookups dependency(a, b[, c]) x which names the system has x which were overridden beforehand x middle step {nothing, subproject overriding one or both names, late override_dependency}: a successful configuration in which the first lookup found something must give the repeated lookup the same (found, name, version). non-trivial (A) = at least two '
         'of {system present, provider present, force flag, nofallback}. (B) wrap-file cases: source/patch acquisition spec (primary URL, '
         'fallback URL, packagecache, packagefiles with/without hash) x corruption class per location {good, flipped-but-extractable, '
         'truncated, other valid archive, garbage, missing} x recorded hash {right, upper-case, hash of other archive, hash of truncated '
@@ -506,6 +506,105 @@ def _shard_a(shard: T.List[dict], ev: Evidence, fails: T.List[Failure]) -> None:
                 sigs.add(f.sig)
                 if len({_fam(x.sig) for x in fails} | {_fam(f.sig)}) <= 6 and len(fails) < 12:
                     fails.append(f)
+    finally:
+        _cleanup_proc()
+
+
+# ---------------------------------------------------------------------------------------------------------
+# (A-multi) lookups with several names: dependency('foo', 'bar').  Model-free reading of the consistency sentence: when the
+# configuration succeeds and the first lookup found a dependency, the repeated lookup gives the same one, whatever happens between them (a
+# subproject that overrides one of the names, a late meson.override_dependency() - which meson may refuse; a refusal is an
+# error and ends the configuration, that is outside the sentence).
+
+def multi_cases() -> T.List[dict]:
+    out = []
+    for names in (['foo', 'bar'], ['bar', 'foo'], ['foo', 'bar', 'baz']):
+        for sysmask in range(4):
+            for premask in range(4):
+                for mid in (['none'], ['sub', 'foo'], ['sub', 'bar'], ['sub', 'foo', 'bar'], ['ovr', 'foo'], ['ovr', 'bar'], ['ovr', 'baz']):
+                    for req in ('false', 'true'):
+                        if req == 'true' and not (sysmask or premask):
+                            continue          # nothing can satisfy the first lookup: a plain error
+                        out.append({'multi': True, 'names': names, 'sys': sysmask, 'pre': premask, 'mid': mid, 'req': req})
+    return out
+
+
+def tree_multi(case: dict) -> T.Dict[str, str]:
+    two = ['foo', 'bar']
+    call = "dependency({}, required: {})".format(', '.join(f"'c10{n}'" for n in case['names']), case['req'])
+    body = "project('main', version: '0.1')\n"
+    for i, n in enumerate(two):
+        if case['pre'] >> i & 1:
+            body += f"meson.override_dependency('c10{n}', declare_dependency(version: '5.{i}'))\n"
+    body += f"d1 = {call}\nmessage('L1:@0@;@1@;@2@'.format(d1.found(), d1.found() ? d1.name() : '-', d1.found() ? d1.version() : '-'))\n"
+    mid = case['mid']
+    if mid[0] == 'sub':
+        body += "subproject('sp')\n"
+    elif mid[0] == 'ovr':
+        body += f"meson.override_dependency('c10{mid[1]}', declare_dependency(version: '9.0'))\n"
+    body += f"d2 = {call}\nmessage('L2:@0@;@1@;@2@'.format(d2.found(), d2.found() ? d2.name() : '-', d2.found() ? d2.version() : '-'))\n"
+    files = {'src/meson.build': body, 'pc/.keep': ''}
+    if mid[0] == 'sub':
+        sp = "project('sp', version: '2.0')\n"
+        for n in mid[1:]:
+            sp += f"meson.override_dependency('c10{n}', declare_dependency(version: '2.0'))\n"
+        files['src/subprojects/sp/meson.build'] = sp
+    for i, n in enumerate(two):
+        if case['sys'] >> i & 1:
+            files[f'pc/c10{n}.pc'] = f"Name: c10{n}\nDescription: generated\nVersion: 1.{i}\n"
+    return files
+
+
+def check_multi(case: dict, sub: bool = False) -> T.Optional[Failure]:
+    from harness import mesondrv as md
+    p = _prep()
+    d = _newdir()
+    try:
+        md.write_tree(d, tree_multi(case))
+        env = {'PKG_CONFIG': p['wrapper'], 'PKG_CONFIG_LIBDIR': os.path.join(d, 'pc'), 'C10_PCLOG': os.path.join(d, 'pc.log'),
+               'CMAKE': '/nonexistent/cmake'}
+        a = ['setup', '--backend=none', os.path.join(d, 'src'), os.path.join(d, 'b')]
+        if sub:
+            r = md.run_sub(a, cwd=d, env=env)
+        else:
+            _reset_dep_caches()
+            r = md.run_inproc(a, cwd=d, env=env)
+        if r.unhandled or r.rc not in (0, 1):
+            return Failure('consistency-multi/crash', case, f'meson setup crashed (rc={r.rc}) on {case}:\n{r.text[-1200:]}')
+        if r.rc != 0:
+            return None
+        got = {m[:2]: m[3:] for m in r.messages() if m[:3] in ('L1:', 'L2:')}
+        if 'L1' not in got or 'L2' not in got:
+            raise HarnessError(f'multi-name case printed no L1/L2 messages: {case}\n{r.text[-600:]}')
+        if got['L1'].startswith('false') and got['L2'].startswith('true'):
+            # nothing provided any of the names at the first lookup and a later step did: "an overridden dependency wins" and
+            # "repeated lookups return the same dependency" pull in different directions here; not judged (the single-name
+            # sequences treat not-found -> override -> found the same way)
+            return None
+        if got['L1'] != got['L2']:
+            return Failure('consistency-multi/same-args-differ', case,
+                           f"dependency({', '.join(case['names'])}, required: {case['req']}) gave (found;name;version) {got['L1']} and, repeated with the "
+                           f"same arguments after step {case['mid']} in the same configuration, {got['L2']} (system has mask {case['sys']}, "
+                           f"overridden beforehand mask {case['pre']} over [foo, bar])")
+        return None
+    finally:
+        shutil.rmtree(d, ignore_errors=True)
+
+
+def _shard_multi(shard: T.List[dict], ev: Evidence, fails: T.List[Failure]) -> None:
+    _prep()
+    sigs: T.Set[str] = set()
+    try:
+        for case in shard:
+            f = check_multi(case)
+            ev.case(case, nontrivial=case['mid'][0] != 'none' and (case['sys'] or case['pre']) != 0, cls='A-multi/' + case['mid'][0])
+            if f is not None:
+                f2 = check_multi(case, sub=True)
+                if f2 is None:
+                    ev.inproc_only += 1
+                elif f2.sig not in sigs:
+                    sigs.add(f2.sig)
+                    fails.append(f2)
     finally:
         _cleanup_proc()
 
@@ -1254,6 +1353,11 @@ def run(ctx: Ctx) -> None:
     allA = cells + seqs
     rnd.shuffle(allA)
     pmap(ctx, _shard_a, _chunks(allA, 32))
+    multi = multi_cases()
+    if ctx.quick:
+        multi = multi[ctx.seed % 2::2]
+    ctx.ev.extra['A_multi_name_cases_run'] = len(multi)
+    pmap(ctx, _shard_multi, _chunks(multi, 16))
     sysb = systematic_b()
     nb = ctx.n(500, 9000)
     randb = [random_b(rnd) for _ in range(nb)]
@@ -1277,6 +1381,8 @@ def replay(ctx: Ctx, case: T.Any, doc: dict) -> T.Optional[Failure]:
     try:
         if case.get('probe') == 'exit0':
             return probe_exit0(case)
+        if case.get('multi'):
+            return check_multi(case, sub=True)
         if 'cfg' in case:
             return judge_a(case, run_a(case, sub=True))
         obs, info = run_b(case, sub_proc=True)
